@@ -105,6 +105,7 @@ def _detect_alleles(variants, var_progress, first, bam_read):
         int n = len(var_progress)
         int cigar_op                            # copy python vars here ...
         int length                              # ... for runtime optimization
+        bint left_flank = False                 # is the base left of ref_pos part of this aligned block?
 
     # Skip variants that come before this region
     while j < n:
@@ -130,6 +131,7 @@ def _detect_alleles(variants, var_progress, first, bam_read):
         # MIDNSHPX= => 012345678. Skip for soft clipping/padding, etc.
         if cigar_op == 3:  # N operator (reference skip)
             ref_pos += length
+            left_flank = False
             continue
         elif cigar_op == 4:  # S operator (soft clipping)
             query_pos += length
@@ -157,6 +159,11 @@ def _detect_alleles(variants, var_progress, first, bam_read):
             # with old implementation. Actually, it would be correct to assume ref allele here,
             # if the preivous base matched. This seems to be an artifact of normalized variants.
             if cigar_op == 2 and ref_len == 0:
+                j += 1
+                continue
+            # An insertion variant at the very first base of an aligned block (read start, after a
+            # reference skip): the read does not span the insertion point, so nothing can be said.
+            if cigar_op != 1 and ref_len == 0 and var_pos == ref_pos and not left_flank:
                 j += 1
                 continue
 
@@ -189,6 +196,7 @@ def _detect_alleles(variants, var_progress, first, bam_read):
             handler(variant, var_entry, bam_read, ref_pos, query_pos, length)
         ref_pos = ref_end
         query_pos = query_end
+        left_flank = True
 
         # Yield resolved variants from left, pop inresolvable variants
         while vqueue:
